@@ -458,6 +458,9 @@ func (g *gen) overlapRound() {
 			}
 		case 1:
 			b = g.newStep("DELETE", g.spell(x))
+			if r.Chance(0.3) {
+				b.set("If-Match", "*")
+			}
 		case 2:
 			if parent != "/" {
 				b = g.newStep("DELETE", g.spell(parent))
@@ -521,6 +524,10 @@ func (g *gen) overlapRound() {
 		default:
 			b = g.genRequest()
 			b.Faults = nil
+		}
+		if (b.Method == "PUT" || b.Method == "DELETE") && len(b.Headers) == 0 && b.FromListing == 0 && r.Chance(0.2) {
+			// conditional requests on OTHER resources while the upload is stalled
+			b.set(rt.Pick(r, []string{"If-Match", "If-None-Match"}), rt.Pick(r, []string{"*", `"vsim-unknown-7"`}))
 		}
 		b.DelayNS = 0
 		a.During = append(a.During, *b)
